@@ -53,8 +53,14 @@ def py_decision(ctx, sc):
     # DISABLED guard: some `return False` is guarded by `<config.innovation_filtering> is None` only
     # (a local bound once -- `if (t := self.config.innovation_filtering) is None` after UNWALRUS -- is read through)
     from .. import astpat
-    fn_ = core.find_func(sc.it.p.classes["python"]["ExtendedKalmanFilter"], "remove_innovation")
-    RA_ = astpat.resolver(fn_)[0] if fn_ is not None else (lambda e: e)
+    from .. import normast as _nm
+    cls_ = sc.it.p.classes["python"]["ExtendedKalmanFilter"]
+    fn_ = core.find_func(cls_, "remove_innovation")
+    props_ = _nm.property_exprs(cls_)
+    RA0_ = astpat.resolver(fn_)[0] if fn_ is not None else (lambda e: e)
+
+    def RA_(e):
+        return _nm.subst_properties(RA0_(e), props_)          # a read-only property that returns the setting is the setting
     for rets_ in (call.get("returns", []),):
         for i_, (v_, path_) in enumerate(rets_):
             rets_[i_] = (v_, [(RA_(t_) if isinstance(t_, ast.AST) else t_, pol_, x_) for t_, pol_, x_ in path_])
@@ -182,6 +188,9 @@ def run(ctx: core.Ctx) -> int:
     ctx.rule("PURE", "remove_innovation writes nothing (no cached state can leak from one reading / sensor to the next)")
     cls = core.need(core.find_class(it.p.modules["python"], "ExtendedKalmanFilter"), "python.ExtendedKalmanFilter")
     fn = core.need(core.find_func(cls, "remove_innovation"), "ExtendedKalmanFilter.remove_innovation")
+    # private helpers (static bound computation) inlined, read-only properties read through: what the decision reads, however it is arranged
+    from .. import normast as _nm2
+    fn = _nm2.subst_properties(_nm2.inline_only(fn, _nm2.class_resolver(it.p.modules["python"], cls)), _nm2.property_exprs(cls))
     ws = effects.writes(fn)
     ctx.oblige("PURE", f"{PY}:{qual}", f"{len(ws)} write effect(s)", not ws, file=PY, func=qual,
                construct="writes:" + ";".join(sorted(w.kind + " " + w.target for w in ws)),
@@ -228,10 +237,20 @@ def config_pass(ctx: core.Ctx):
             continue
         n += 1
         bad = []
+        # a conversion helper (`config = _config_from(config)`, module level or in common.py) is read through
+        from .. import normast as _nm3
+        fn = _nm3.inline_only(fn, _nm3.class_resolver(mod, scope if cls else None))
+        # names the converted configuration passes through on its way back into `config` (the result variable of an inlined helper)
+        cfg_names = {"config"}
+        for _ in range(3):
+            for s_ in ast.walk(fn):
+                if isinstance(s_, ast.Assign) and any(isinstance(t, ast.Name) and t.id in cfg_names for t in s_.targets) and isinstance(s_.value, ast.Name):
+                    cfg_names.add(s_.value.id)
+        cfg_names -= {a.arg for a in fn.args.args + fn.args.kwonlyargs if a.arg != "config"}
         for s_ in ast.walk(fn):
-            if isinstance(s_, ast.Assign) and any(isinstance(t, ast.Name) and t.id == "config" for t in s_.targets):
+            if isinstance(s_, ast.Assign) and any(isinstance(t, ast.Name) and t.id in cfg_names for t in s_.targets):
                 v = ast.unparse(s_.value).replace(" ", "")
-                if v not in ("Config()", "Config(**config)"):
+                if v not in ("Config()", "Config(**config)") and v not in cfg_names:
                     bad.append((s_.lineno, f"config = {ast.unparse(s_.value)[:80]}"))
             if isinstance(s_, ast.Call) and isinstance(s_.func, ast.Attribute) and isinstance(s_.func.value, ast.Name) and s_.func.value.id == "config" \
                     and s_.func.attr in ("pop", "popitem", "clear", "update", "setdefault"):
@@ -244,12 +263,15 @@ def config_pass(ctx: core.Ctx):
         from .. import estflow, rtmodel, normast
         from .c17 import _paths
         fnn = normast.Normaliser(None).function(fn)
+        for s_ in ast.walk(fnn):
+            if isinstance(s_, ast.Assign) and any(isinstance(t, ast.Name) and t.id in cfg_names for t in s_.targets) and isinstance(s_.value, ast.Name):
+                cfg_names.add(s_.value.id)
         for path in _paths(fnn.body):
             conds = []
             for e in path:
                 if e[0] == "cond":
                     conds.append((rtmodel.py_expr(e[1]), e[2]))
-                elif e[0] == "stmt" and isinstance(e[1], ast.Assign) and any(isinstance(t, ast.Name) and t.id == "config" for t in e[1].targets):
+                elif e[0] == "stmt" and isinstance(e[1], ast.Assign) and any(isinstance(t, ast.Name) and t.id in cfg_names for t in e[1].targets):
                     v = ast.unparse(e[1].value).replace(" ", "")
                     lits = estflow.literals(conds)
                     if v == "Config()":
